@@ -79,7 +79,14 @@ def judge(case, run, world, callers):
                              f"although no GOAWAY refused its first transmission; outcome {out and (out.get('status') or out['exc']['name'])}", **base))
             if refused_first and out is not None and not world.fired_faults:
                 # (with an injected network fault in the same run the re-sent request may legitimately fail)
-                if len(tx) == 1 or out["exc"] is not None:
+                second_disturbed = False
+                if len(tx) == 2:
+                    # the re-sent transmission has its own connection with its own server behaviour (the script fires per connection): if THAT
+                    # server reset or refused it too, a failure of the call says nothing about the re-send
+                    h2b = getattr(world.pipes[tx[1][0]].peer.leaf(), "h2", None)
+                    ex2 = h2b.streams.get(tx[1][1], {}).get("ex", {}) if h2b is not None else {}
+                    second_disturbed = bool(tx[1][2] or ex2.get("rst_by_server") or ex2.get("refused") or (h2b is not None and h2b.goaway_sent is not None))
+                if len(tx) == 1 or (out["exc"] is not None and not second_disturbed):
                     # the GOAWAY that refused THIS transmission (other connections of the run - e.g. the probe's - may have seen their own)
                     g_own = getattr(world.pipes[tx[0][0]].peer.leaf(), "h2", None)
                     goaway = g_own.goaway_sent if g_own is not None and g_own.goaway_sent is not None else goaway
